@@ -118,9 +118,9 @@ def c13_script(seq, scen):
         elif o == "check":
             ops.append({"op": "quiescent"})
         if gated:
-            ops.append({"op": "gate_release"}); gated = False
+            ops += [{"op": "gate_release"}, {"op": "call_wait"}]; gated = False
     if gated:
-        ops.append({"op": "gate_release"})
+        ops += [{"op": "gate_release"}, {"op": "call_wait"}]
     ops.append({"op": "quiescent"})
     return {"scen": scen, "sock": "SUB", "ops": ops}
 
@@ -145,9 +145,9 @@ def random_c13(rng, scen):
         else:
             ops.append({"op": "quiescent"})
         if gated:
-            ops.append({"op": "gate_release"}); gated = False
+            ops += [{"op": "gate_release"}, {"op": "call_wait"}]; gated = False
     if gated:
-        ops.append({"op": "gate_release"})
+        ops += [{"op": "gate_release"}, {"op": "call_wait"}]
     ops.append({"op": "quiescent"})
     return {"scen": scen, "sock": "SUB", "ops": ops}
 
